@@ -571,6 +571,20 @@ func verifyRRSIGWithWork(
 		verified := false
 		var rrsetUsed uint32
 		for _, sig := range sigList {
+			if denialRecordType(key.rtype) && wildcardExpanded(set[0].Header().Name, sig) {
+				// RFC 4035 §5.3.2 rebuilds "*.<suffix>" from the Labels
+				// field before hashing, so a signature made for a wildcard
+				// owner verifies under every name below that suffix. That
+				// is how a wildcard ANSWER is checked, and §5.3.4 makes it
+				// depend on a next-closer denial. An NSEC or NSEC3 is never
+				// synthesised: it describes the one owner it was published
+				// at. One whose signature only fits after wildcard
+				// reconstruction is the wildcard's own denial record under
+				// somebody else's name, and would "prove" that name lacks
+				// every type the wildcard lacks.
+				lastErr = ErrMissingSigned
+				continue
+			}
 			if err := verifyOneSigWithWork(keys, set, sig, work, &rrsetUsed); err != nil {
 				if IsWorkError(err) {
 					return false, err
@@ -590,6 +604,24 @@ func verifyRRSIGWithWork(
 	}
 
 	return true, nil
+}
+
+// denialRecordType reports the record types that state facts about their own
+// owner name and are therefore never the product of wildcard synthesis.
+func denialRecordType(rtype uint16) bool {
+	return rtype == dns.TypeNSEC || rtype == dns.TypeNSEC3
+}
+
+// wildcardExpanded reports whether sig covers owner only through wildcard
+// reconstruction: its Labels field counts fewer labels than the owner has. A
+// wildcard owner's own leading "*" label is not counted by the signer (RFC
+// 4034 §3.1.3), so "*.example." signed with Labels=1 is not an expansion.
+func wildcardExpanded(owner string, sig *dns.RRSIG) bool {
+	labels := dns.CountLabel(owner)
+	if strings.HasPrefix(owner, "*.") {
+		labels--
+	}
+	return int(sig.Labels) < labels
 }
 
 type rrsigIdentity struct {
